@@ -39,6 +39,9 @@ type c16gen struct {
 	marker  int
 	maxPair int
 	equal   float64
+	late    bool // some values are placeholders filled between two renders
+	slot    int
+	fills   []Op
 }
 
 var prefixChain = []string{"K", "Ka", "Kab", "Kabc", "K_", "K0", "K1", "KA", "Kb", "K_a"}
@@ -148,6 +151,11 @@ func (g *c16gen) dict16(depth, ctx int) *Node {
 		v := g.value(depth)
 		if g.r.Chance(g.cfg.NullSides) {
 			v = &Node{K: g.r.Pick([]string{"null", "emptystmt", "emptytag"})}
+		} else if g.late && g.r.Chance(0.3) {
+			// a value that is still empty at the first render and filled in afterwards
+			g.slot++
+			g.fills = append(g.fills, Op{K: "fill", I: g.slot, Node: v})
+			v = &Node{K: "placeholder", I: g.slot}
 		}
 		if g.r.Chance(g.cfg.NullSides / 2) {
 			k = &Node{K: g.r.Pick([]string{"null", "emptystmt"})}
@@ -175,6 +183,7 @@ func (propC16) Gen(seed uint64, tier string) *Case {
 	if r.Chance(0.3) {
 		g.equal = []float64{0.15, 0.4}[r.Intn(2)]
 	}
+	g.late = r.Chance(0.2)
 	g.universe()
 	rec := &Recipe{Paths: g.paths, File: FileSpec{Ctor: "name", Name: "main"}}
 	if len(g.paths) > 0 && r.Chance(0.3) {
@@ -206,6 +215,13 @@ func (propC16) Gen(seed uint64, tier string) *Case {
 		rec.Ops = append(rec.Ops, Op{K: "add", Node: decl})
 	}
 	rec.Ops = append(rec.Ops, Op{K: "render"})
+	if len(g.fills) > 0 {
+		// outer values first: a placeholder nested in a filled value only exists once that value is built
+		for i := len(g.fills) - 1; i >= 0; i-- {
+			rec.Ops = append(rec.Ops, g.fills[i])
+		}
+		rec.Ops = append(rec.Ops, Op{K: "render"})
+	}
 	c := &Case{Property: "C16", Seed: seed, Tier: tier, Recipe: rec}
 	c.Cfg, _ = json.Marshal(map[string]interface{}{"gen": cfg, "equal": g.equal, "max_pairs": g.maxPair})
 	k := 3
@@ -518,27 +534,32 @@ func (propC16) Check(c *Case) (*Violation, *RunInfo) {
 				ri.Vacuous = true
 				continue
 			}
-			last := &hist[len(hist)-1]
-			if viol != nil {
-				continue
-			}
-			if last.Panic != "" {
-				viol = &Violation{Rule: "C16-panic", Detail: "rendering a File with Dicts panicked: " + last.Panic, Exec: ei, Op: last.Op}
-				continue
-			}
-			if !last.OK {
-				if !nf {
-					viol = &Violation{Rule: "C16-invalid-literal", Detail: "formatted render failed although every part is valid Go: " + trunc(last.Err, 600), Exec: ei, Op: last.Op}
+			for hi := range hist {
+				last := &hist[hi]
+				if !last.Render || viol != nil {
+					continue
 				}
-				continue
-			}
-			ri.count("renders_checked", 1)
-			if v := checkDictOutput(c.Recipe, last.Out, nf); v != nil {
-				v.Exec, v.Op = ei, last.Op
-				if nf {
-					v.Detail += " (NoFormat render)"
+				if last.Panic != "" {
+					viol = &Violation{Rule: "C16-panic", Detail: "rendering a File with Dicts panicked: " + last.Panic, Exec: ei, Op: last.Op}
+					continue
 				}
-				viol = v
+				if !last.OK {
+					if !nf {
+						viol = &Violation{Rule: "C16-invalid-literal", Detail: "formatted render failed although every part is valid Go: " + trunc(last.Err, 600), Exec: ei, Op: last.Op}
+					}
+					continue
+				}
+				ri.count("renders_checked", 1)
+				if v := checkDictOutput(modelAt(rec, hi), last.Out, nf); v != nil {
+					v.Exec, v.Op = ei, last.Op
+					if nf {
+						v.Detail += " (NoFormat render)"
+					}
+					if hi < len(hist)-1 || hi > 0 && hasFill(rec) {
+						v.Detail += fmt.Sprintf(" (render at op %d of a history with values filled in between renders)", hi)
+					}
+					viol = v
+				}
 			}
 		}
 		ri.Frozen = append(ri.Frozen, frozen)
@@ -578,6 +599,11 @@ func bucket(n int) string {
 func (propC16) Valid(c *Case) bool {
 	ok := true
 	seen := map[string]bool{}
+	for _, op := range c.Recipe.Ops {
+		if op.K == "fill" && !(op.Node != nil && op.Node.K == "call" && len(op.Node.N) > 0 && op.Node.N[0].K == "id" && markerRe.MatchString(op.Node.N[0].S)) {
+			return false
+		}
+	}
 	c.Recipe.walk(func(n *Node) {
 		if n.K == "id" && markerRe.MatchString(n.S) {
 			if seen[n.S] {
@@ -597,4 +623,44 @@ func (propC16) Valid(c *Case) bool {
 		}
 	})
 	return ok
+}
+
+func hasFill(rec *Recipe) bool {
+	for _, op := range rec.Ops {
+		if op.K == "fill" {
+			return true
+		}
+	}
+	return false
+}
+
+// modelAt is the recipe as the library sees it after op i: placeholders that have been
+// filled by then stand for their content, the others are still empty (null).
+func modelAt(rec *Recipe, i int) *Recipe {
+	if !hasFill(rec) {
+		return rec
+	}
+	m := cloneRecipe(rec)
+	filled := map[int]*Node{}
+	for j := 0; j <= i && j < len(m.Ops); j++ {
+		if m.Ops[j].K == "fill" {
+			filled[m.Ops[j].I] = m.Ops[j].Node
+		}
+	}
+	m.walk(func(n *Node) {
+		for pi := range n.KV {
+			if v := n.KV[pi][1]; v != nil && v.K == "placeholder" {
+				if f, ok := filled[v.I]; ok {
+					n.KV[pi][1] = f
+				}
+			}
+		}
+	})
+	// fill ops carry their own copy of the value nodes: they are not part of the tree
+	for j := range m.Ops {
+		if m.Ops[j].K == "fill" {
+			m.Ops[j].Node = nil
+		}
+	}
+	return m
 }
